@@ -43,6 +43,27 @@ CHECKS = {
         "with the func_ptr parameter; backend argument i depends on parameter i and on no other; the result is converted from the backend's return value with this sandbox instance; lookup caches are per-instance, keyed by the looked-up name, "
         "written under the unique guard, and each cache has a single backend filler; the bundled backends call *func_ptr once with all parameters. Value faithfulness per argument kind is C04/C06/C08.",
    note="trusted: clang front end; engine; dynamic loader semantics; what the guest function observes at run time is outside static reach", ref="3/C11"),
+ "C12": dict(level="other", technique="index/identity agreement analysis of the callback dispatch chain over the path-sensitive event model (register slot = trampoline slot = lookup slot; context save/restore)",
+   text="Decides every step of the dispatch chain for all instantiated signatures, both bundled backends and both TLS configurations: the interceptor calls exactly the key the backend reports, once, with the executing sandbox "
+        "and one-to-one converted arguments (pointers relative to that sandbox) and converts the result back; impl_register_callback stores key and interceptor at the index of the trampoline it returns; trampoline<N> records N and "
+        "calls callbacks[N] of the per-thread sandbox; the lookup reads callback_unique_keys[last_callback_invoked]; unregister clears both arrays at the matching index; impl_invoke installs and restores the per-thread sandbox. "
+        "Dispatch after arbitrary histories/nesting is a state-space property and is not enumerated.",
+   note="trusted: clang front end; engine. Value faithfulness per kind is C04/C06/C08.", ref="3/C12"),
+ "C14": dict(level="other", technique="typestate/ordering rules over create_sandbox/destroy_sandbox paths plus a who-may-write table for the status word and the live list",
+   text="Decides: the status word is written only by create/destroy; the four status values form the cycle via compare-exchange-with-abort; CREATED is stored and the sandbox published only after (successful) backend creation, under the unique guard; "
+        "removal is existence-checked, under the guard, before backend destruction; every backend call in malloc/free/register/unregister is dominated by status == CREATED with the prescribed not-created outcome. "
+        "Containers surviving destroy (stale keys / cached symbols) are recorded known findings. Operation sequences are not enumerated.",
+   note="trusted: std::atomic semantics; clang front end; engine", ref="3/C14"),
+ "C18": dict(level="other", technique="storage-class table of all statics + lock-set analysis of every access to guarded shared state",
+   text="Computes the list of all variables with static storage in the headers for every backend/TLS configuration and requires each to be immutable, thread_local, a lock or guarded by a named lock; "
+        "every access to the live-sandbox list must lie inside a live guard (mutations under the unique guard); the status word must be atomic; the backends' per-thread context must be thread_local. "
+        "This is the classic lock-set sufficient condition for race freedom of the state shared between instances; schedules are not explored.",
+   note="assumes per-instance state is confined to its thread (the property's premise); third-party backends out of scope", ref="3/C18"),
+ "C19": dict(level="other", technique="bracketing/RAII analysis on the hooks+timing configuration: destructors of scope guards are executed symbolically at scope exit",
+   text="For every instantiated invocation and interceptor in the configuration that defines both hooks and timing: exactly one opening and one closing notification bracket the crossing on every path with the identity "
+        "(kind, name, pointer, transition state); the closing notification and the single timing record are issued from scope-guard destructors whose guards are constructed before the first statement that can abort; "
+        "scope_exit runs iff armed, moves disarm the source, copies are deleted. The nesting tree is balanced because each crossing brackets itself.",
+   note="trusted: C++ unwinding semantics for exceptions; clang front end; engine", ref="3/C19"),
 }
 NA_REASON = "check under construction in this revision (see DESIGN.md section 3 for the planned static rules); not claimed yet"
 
